@@ -242,6 +242,34 @@ def run(w: World, rep: Report):
         rep.check('C17.R6', f'tools.{fi.name}|parameters-used', not unused, line=fi.node.lineno, file='tapescript/tools.py',
                   why='' if not unused else f'parameter(s) {unused} of {fi.name} are never used: the caller\'s choice (e.g. '
                   f'sigflags) does not reach the scripts built - lock and witness are made for different flags')
+    # R7: the checker and the decrypter use the popped adapter operands as they are.  clamp_scalar truncates to 32
+    # bytes and sets / clears bits: an altered (over-long) `sa` would be accepted by the check although decryption
+    # refuses it; slicing a popped operand does the same.
+    rep.rule('C17.R7', 'OP_CHECK_ADAPTER_SIG does not normalise its popped operands (no clamp_scalar, no truncating '
+             'slice of a stack item; the decrypter clamps only the tweak scalar it is documented to clamp)', floor=1)
+    for op in ('OP_CHECK_ADAPTER_SIG',):
+        fi = w.handler_for(op)
+        cfg = w.cfg(fi)
+        kinds = w.kinds(fi)
+        bad = ''
+        for nd, c in cfg.nodes_with_call(lambda c: isinstance(c.func, ast.Name) and c.func.id == 'clamp_scalar' and c.args):
+            k = kinds.of(c.args[0], nd)
+            if all(l.tag == 'stack_item' for l in k.leaves()):
+                bad = f'`{ast.unparse(c)[:40]}` normalises a popped operand'
+        for nd in cfg.nodes:
+            if nd.ast is None or nd.kind == 'except':
+                continue
+            for x in ast.walk(nd.ast):
+                if isinstance(x, ast.Subscript) and isinstance(x.slice, ast.Slice) and isinstance(x.ctx, ast.Load):
+                    try:
+                        k = kinds.of(x.value, nd)
+                    except Exception:
+                        continue
+                    if k.leaves() and all(l.tag == 'stack_item' for l in k.leaves()):
+                        bad = bad or f'`{ast.unparse(x)[:40]}` cuts a popped operand'
+        rep.check('C17.R7', f'functions.{fi.name}|operands-used-as-popped', not bad, line=fi.node.lineno, file=REL,
+                  why='' if not bad else bad + ': an altered operand (extra bytes, changed high bits) passes the check while '
+                  'the value it stands for cannot be decrypted to a signature')
     rep.explanation = (
         'Narrow: decides only a necessary condition of "the adapter passes the adapter check" - that both makers '
         'feed the Fiat-Shamir hash the same term shape as the checker (aggregate of nonce point and tweak point, '
